@@ -341,6 +341,7 @@ func (e *Engine) unknownCall(s *State, key string, resT types.Type, args []*Val,
 
 // applyContract replaces a call by the callee's contract: assert requires, havoc modifies, assume ensures.
 func (e *Engine) applyContract(s *State, ct *Contract, fn *ssa.Function, sig *types.Signature, recvT types.Type, args []*Val, in ssa.Instruction, key string) *Val {
+	e.note("contract used at a call site: " + ct.Key)
 	ctx := &SpecCtx{Fn: fn, Params: map[string]*Val{}, PTypes: map[string]types.Type{}, Bound: map[string]*SV{}, OldEpoch: true, AtCallSite: true}
 	if ctx.Fn == nil {
 		ctx.Fn = s.top().Fn
@@ -691,7 +692,7 @@ func (e *Engine) callModsDepth(c *ssa.CallCommon, m *mods, seen map[*ssa.Alloc]b
 		for _, b := range f.Blocks {
 			for _, in := range b.Instrs {
 				if _, ok := in.(*ssa.RunDefers); ok {
-					continue // a small helper has no defer: nothing runs here
+					continue // the helper's own deferred calls are accounted for at their defer instructions
 				}
 				e.instrMods(in, seen, m, depth+1)
 			}
@@ -984,17 +985,17 @@ func SmallHelperStatic(p *Program, fn *ssa.Function) bool {
 		n += len(b.Instrs)
 		for _, in := range b.Instrs {
 			switch in.(type) {
-			case *ssa.Go, *ssa.Select, *ssa.Defer, *ssa.Range:
+			case *ssa.Range:
 				return false
 			}
 		}
 		for _, succ := range b.Succs {
-			if succ.Index <= b.Index {
+			if succ.Dominates(b) {
 				return false // back edge: a loop
 			}
 		}
 	}
-	return n <= 80
+	return n <= 120
 }
 
 // InlinedEverywhere: an unexported small helper that is only ever called directly (never spawned,
